@@ -922,3 +922,87 @@ Definition mrun (m : machine) (sc : list sched) : machine := fold_left mstep sc 
 Definition minit (progs : list (list op)) : machine :=
   {| m_sh := sh_init;
      m_threads := map (fun p => {| t_cur := None; t_todo := p; t_done := []; t_fault := None |}) progs |}.
+
+(* ================================================================== *)
+(* wire                                                               *)
+(* ================================================================== *)
+(* A case:  (kind probe fresh hist adv aprobe)
+     kind   0 = the probe is a JSON ioCore.Write described as a C01 encoder case (the model's line
+                is computed by the shared encoder model); 1 = any other probe (console encoder,
+                Logger with caller/stack): the model's line is the fresh-state bytes carried in
+                the case
+     probe  kind 0: the encoder case; kind 1: a label
+     fresh  bytes the probe produced in a fresh state (first thing in the process / after GCs)
+     hist   the history that preceded the observed probe, abstracted to the pooled operations
+            of this model: (k a b c d e f)   k: 0 JSON write, 1 console write, 2 With, 3 Logger
+            call, 4 zap.Stack, 5 GC; a plain fields, b reflected ok, c reflected failing,
+            d namespaces, e error-group size, f flags/depth
+     adv    the adversary's choices for the model run
+     aprobe the observed probe, abstracted the same way
+   observation: (line) *)
+From Zap Require C01.Model.
+
+Definition kx : bytes := [x6b].
+Definition vx : bytes := [x76].
+Definition wire_cfg : ecfg :=
+  {| c_msg := [x6d]; c_lvl := [x6c]; c_name := [x6e]; c_caller := [x63]; c_stack := [x73]; c_le := [NL]; c_sep := [TAB] |}.
+Definition wire_enc (sp : bool) : enc := {| e_cfg := wire_cfg; e_spaced := sp; e_ns := 0; e_buf := [] |}.
+Definition wire_ent : entry := {| en_lvl := [x69]; en_name := [x6e]; en_msg := [x6d]; en_stack := []; en_caller := None |}.
+
+Definition mk_fields (a b c d e f : nat) : list pf :=
+  repeat (PStr kx vx) a ++ repeat (PRefl kx (ROk vx)) b ++ repeat (PRefl kx (RErr vx)) c ++
+  (match e with 0 => [] | _ => [PErr kx vx (repeat vx e); PErrs kx (repeat vx e)] end) ++
+  (if Nat.odd f then [PObj kx [PNs kx; PRefl kx (ROk vx); PStr kx vx] (Some vx)] else []) ++
+  repeat (PNs kx) d.
+
+Definition dec_hitem (s : sx) : hitem :=
+  let n i := sx_n (sx_nth s i) in
+  let fs := mk_fields (n 1) (n 2) (n 3) (n 4) (n 5) (n 6) in
+  match n 0 with
+  | 0 => HOp (OWrite {| co_enc := wire_enc false; co_console := false; co_fail := false |} wire_ent fs)
+  | 1 => HOp (OWrite {| co_enc := wire_enc true; co_console := true; co_fail := false |} wire_ent fs)
+  | 2 => HOp (OWith (wire_enc (Nat.odd (n 6))) fs)
+  | 3 => HOp (OLog {| l_cores := [{| co_enc := wire_enc false; co_console := false; co_fail := false |};
+                                  {| co_enc := wire_enc true; co_console := true; co_fail := Nat.odd (n 6) |}];
+                      l_hook := None; l_errout := true; l_caller := Nat.odd (n 6 / 2); l_stack := Nat.odd (n 6 / 4) |}
+                   wire_ent (seq 1 (n 6 / 8)) fs)
+  | 4 => HOp (OTake (seq 1 (n 6)))
+  | _ => HGC
+  end.
+
+Definition out_bytes (o : out) : bytes :=
+  match o with
+  | OutBytes b => b
+  | OutEnc e => e_buf e
+  | OutEvents l => concat (map (fun ev => match ev with SinkWrite _ b => b | ErrOut => [x45] | Hook _ => [x48] | Reuse => [x52] end) l)
+  end.
+
+(* run the pooled model: the probe after the history and in the initial state give the same
+   bytes and nothing faults *)
+Definition machine_ok (hist : list hitem) (adv : list nat) (probe : hitem) : bool :=
+  match probe with
+  | HGC => true
+  | HOp o =>
+      match observe hist adv o, observe [] [] o with
+      | inl a, inl b => bytes_eqb (out_bytes a) (out_bytes b)
+      | _, _ => false
+      end
+  end.
+
+Definition w_kind (i : sx) : Z := sx_z (sx_nth i 0).
+Definition w_fresh (i : sx) : bytes := sx_b (sx_nth i 2).
+Definition model (i : sx) : sx :=
+  if machine_ok (map dec_hitem (sx_l (sx_nth i 3))) (map sx_n (sx_l (sx_nth i 4))) (dec_hitem (sx_nth i 5)) then
+    match w_kind i with
+    | 0%Z => C01.Model.model (sx_nth i 1)
+    | _ => SL [SB (w_fresh i)]
+    end
+  else SL [SZ (-1)].
+(* the property's oracle: the probe's bytes after the history are its fresh-state bytes *)
+Definition spec (i o : sx) : bool := sx_eqb o (SL [SB (w_fresh i)]).
+(* well-formed case: for a model-rendered probe, the fresh run agreed with the encoder model *)
+Definition wf (i : sx) : bool :=
+  match w_kind i with
+  | 0%Z => sx_eqb (C01.Model.model (sx_nth i 1)) (SL [SB (w_fresh i)])
+  | _ => true
+  end.
